@@ -125,7 +125,9 @@ def _reported(h, rel):
     for lv, msg, tb in h["logs"]:
         if lv == "ERROR" and ("/simfs/" + rel) in W.norm_paths(msg):
             return True
-    return False
+    # the single-file and stream entry points report to their caller by raising (a file torn inside a multi-byte
+    # character by the crash of the forward run cannot be decoded by any entry point)
+    return any(rel in (st.get("failed_files") or {}) for st in h.get("steps", []))
 
 
 def check(plan):
